@@ -326,7 +326,7 @@ func (dr DateRange) ParseError() error {
 
 func (dr DateRange) String() string {
 	start, end := dr.StartAndEndDates()
-	if start.Equals(end) {
+	if start.Is(end) {
 		return start.String()
 	}
 
